@@ -1,17 +1,20 @@
 (* Wrap.v — executable model of the line wrapping MontePy applies to every formatted input:
-   montepy/mcnp_object.py: MCNP_Object.wrap_string_for_mcnp and MCNP_Object._wrap_line (commit 5ca937a), which drive
-   Python's textwrap.TextWrapper(width, initial_indent, subsequent_indent = 5 blanks, drop_whitespace=False)
-   with its defaults break_long_words = break_on_hyphens = expand_tabs = replace_whitespace = True.
+   montepy/mcnp_object.py: MCNP_Object.wrap_string_for_mcnp and MCNP_Object._wrap_line (as of /repo commits 5ca937a,
+   6283f05, c3da1f2), which drive Python's textwrap.TextWrapper(width, initial_indent, subsequent_indent = 5 blanks,
+   drop_whitespace=False, break_on_hyphens=False) with its defaults break_long_words = expand_tabs =
+   replace_whitespace = True.
 
-   Modelled here: TextWrapper._munge_whitespace (str.expandtabs(8) + whitespace translation), TextWrapper._wrap_chunks
-   and _handle_long_word (CPython 3.12), montepy.utilities.is_comment, MCNP_Object._wrap_line (fit test, 'c' comment
-   lines, split at the first '$', comment appended / started on a short last data line / continued with "     $ "),
-   the blank-line filters and per-line loop of wrap_string_for_mcnp, Message/Title truncation.
-   NOT modelled: TextWrapper._split (the chunking regular expression).  The chunks of the line, of its data part and
-   of its comment part are inputs; the wire entry refuses chunk lists that do not concatenate to the munged text;
-   [split_ws] below is the chunking of hyphen-free text (maximal runs of blanks / non-blanks) and the correspondence
-   checks on every case that the real chunks of hyphen-free text equal [split_ws].  str.splitlines is done by the
-   caller.  Strings are sequences of latin-1 code points.  No proofs in this file. *)
+   Modelled here, from the raw line to the written lines: str.expandtabs(8), TextWrapper._munge_whitespace,
+   TextWrapper._split for break_on_hyphens=False (wordsep_simple_re: maximal runs of blanks / non-blanks = [split_ws]),
+   TextWrapper._wrap_chunks and _handle_long_word (CPython 3.12), montepy.utilities.is_comment,
+   MCNP_Object._wrap_line (tabs expanded first; fit test; 'c' comment lines whose C is within the first five columns
+   of the written line; split at the first '$'; comment appended / started on a short last data line / continued
+   with "     $ "; a blank prefix of half the width or more is replaced by the continuation indent), the blank-line
+   filters and per-line loop of wrap_string_for_mcnp, Message/Title truncation.
+   NOT modelled: str.splitlines (done by the caller).  Strings are sequences of latin-1 code points.
+   Domain: 7 < W (textwrap raises ValueError for width <= 0 and does not terminate when an indent that is used
+   twice exceeds the width; MontePy uses W = 80 / 128 and indents of at most 7 columns + a prefix shorter than W/2).
+   No proofs in this file. *)
 From Coq Require Import List String Ascii Arith Bool Lia.
 From MPV Require Import Model.Wire.
 Import ListNotations.
@@ -32,33 +35,8 @@ Fixpoint drop (n : nat) (s : string) : string :=
   | S k, String a r => drop k r
   end.
 
-Definition is_hyphen (a : ascii) : bool := Ascii.eqb a "-"%char.
-
-(* chunk.rfind('-', 0, limit): greatest i < limit with chunk[i] = '-' *)
-Fixpoint rfind_hyphen_aux (s : string) (i limit : nat) (best : option nat) : option nat :=
-  match s with
-  | EmptyString => best
-  | String a r =>
-      if Nat.ltb i limit
-      then rfind_hyphen_aux r (S i) limit (if is_hyphen a then Some i else best)
-      else best
-  end.
-Definition rfind_hyphen (s : string) (limit : nat) : option nat := rfind_hyphen_aux s 0 limit None.
-
-Fixpoint all_hyphens (s : string) : bool :=
-  match s with
-  | EmptyString => true
-  | String a r => andb (is_hyphen a) (all_hyphens r)
-  end.
-
-(* _handle_long_word with break_long_words and break_on_hyphens: the cut position *)
-Definition long_word_cut (chunk : string) (space_left : nat) : nat :=
-  if Nat.ltb space_left (slen chunk) then
-    match rfind_hyphen chunk space_left with
-    | Some h => if andb (Nat.ltb 0 h) (negb (all_hyphens (take h chunk))) then S h else space_left
-    | None => space_left
-    end
-  else space_left.
+(* _handle_long_word with break_long_words = True, break_on_hyphens = False: the cut position *)
+Definition long_word_cut (chunk : string) (space_left : nat) : nat := space_left.
 
 (* the inner loop: put chunks on the line while they fit *)
 Fixpoint fill (chunks : list string) (cur : string) (cur_len width : nat) (any : bool)
@@ -173,6 +151,7 @@ Fixpoint expandtabs_aux (s : string) (col : nat) : string :=
       else if orb (Ascii.eqb a nl_char) (Ascii.eqb a cr_char) then String a (expandtabs_aux r 0)
       else String a (expandtabs_aux r (S col))
   end.
+Definition expandtabs (s : string) : string := expandtabs_aux s 0.
 (* TextWrapper.unicode_whitespace_trans: "\t\n\x0b\x0c\r " -> " " *)
 Definition is_munged_ws (a : ascii) : bool :=
   let n := nat_of_ascii a in orb (andb (Nat.leb 9 n) (Nat.leb n 13)) (Nat.eqb n 32).
@@ -182,7 +161,7 @@ Fixpoint translate_ws (s : string) : string :=
   | String a r => String (if is_munged_ws a then " "%char else a) (translate_ws r)
   end.
 (* TextWrapper._munge_whitespace *)
-Definition munge (s : string) : string := translate_ws (expandtabs_aux s 0).
+Definition munge (s : string) : string := translate_ws (expandtabs s).
 
 (* ---- montepy.utilities.is_comment ---- *)
 Definition is_c (a : ascii) : bool := orb (Ascii.eqb a "c"%char) (Ascii.eqb a "C"%char).
@@ -246,38 +225,54 @@ Record src_line : Type := SrcLine {
 Definition comment_si : string := "c ".
 Definition dollar_si (si : string) : string := si ++ "$ ".
 
-Definition wrap_line (W : nat) (ii si : string) (l : src_line) : wres :=
+(* the body of _wrap_line on the tab-expanded line and the chunks of its parts; [cont] = BLANK_SPACE_CONTINUE *)
+Definition wrap_line_chunks (W cont : nat) (ii si : string) (l : src_line) : wres :=
   let line := l_text l in
   if Nat.leb (slen ii + slen line) W then of_opt (wrap_chunks W ii si (l_chunks l))
-  else if is_comment line then of_opt (wrap_chunks W ii comment_si (l_chunks l))
-  else if negb (has_char dollar line) then of_opt (wrap_chunks W ii si (l_chunks l))
   else
-    let data := before_dollar line in
-    let comment := from_dollar line in
-    if negb (all_pyspace data) then
-      match wrap_chunks W ii si (l_data_chunks l) with
-      | None => WFuel
-      | Some [] => WIndexError
-      | Some ret =>
-          let lst := List.last ret "" in
-          if Nat.leb (slen lst + slen comment) W then WOk (List.app (removelast ret) [lst ++ comment])
-          else if Nat.ltb (slen lst) (Nat.div W 2)
-          then wapp (removelast ret) (wrap_chunks W lst (dollar_si si) (l_comment_chunks l))
-          else wapp ret (wrap_chunks W si (dollar_si si) (l_comment_chunks l))
-      end
-    else of_opt (wrap_chunks W (ii ++ data) (dollar_si si) (l_comment_chunks l)).
+    let written := ii ++ line in
+    if andb (is_comment written) (negb (all_pyspace (take cont written)))
+    then of_opt (wrap_chunks W ii comment_si (l_chunks l))
+    else if negb (has_char dollar line) then of_opt (wrap_chunks W ii si (l_chunks l))
+    else
+      let data := before_dollar line in
+      let comment := from_dollar line in
+      if negb (all_pyspace data) then
+        match wrap_chunks W ii si (l_data_chunks l) with
+        | None => WFuel
+        | Some [] => WIndexError
+        | Some ret =>
+            let lst := List.last ret "" in
+            if Nat.leb (slen lst + slen comment) W then WOk (List.app (removelast ret) [lst ++ comment])
+            else if Nat.ltb (slen lst) (Nat.div W 2)
+            then wapp (removelast ret) (wrap_chunks W lst (dollar_si si) (l_comment_chunks l))
+            else wapp ret (wrap_chunks W si (dollar_si si) (l_comment_chunks l))
+        end
+      else
+        let ci := ii ++ data in
+        of_opt (wrap_chunks W (if Nat.leb (Nat.div W 2) (slen ci) then si else ci) (dollar_si si)
+                            (l_comment_chunks l)).
+
+(* wrapper.wrap(text): _munge_whitespace, then _split with break_on_hyphens = False *)
+Definition chunks_of (text : string) : list string := split_ws (munge text).
+
+(* MCNP_Object._wrap_line(wrapper, line) *)
+Definition wrap_line (W cont : nat) (ii si : string) (line0 : string) : wres :=
+  let line := expandtabs line0 in
+  wrap_line_chunks W cont ii si
+    (SrcLine line (chunks_of line) (chunks_of (before_dollar line)) (chunks_of (from_dollar line))).
 
 Definition keep_part (s : string) : bool := negb (all_pyspace s).      (* if part.strip() *)
 
 (* wrap_string_for_mcnp: [lines] are the splitlines() of the formatted text; blank-only lines are skipped; every
    line is wrapped on its own; wrapped parts of only blanks are dropped *)
-Fixpoint wrap_lines (W : nat) (cont : nat) (is_first : bool) (lines : list src_line) : wres :=
+Fixpoint wrap_lines (W : nat) (cont : nat) (is_first : bool) (lines : list string) : wres :=
   match lines with
   | [] => WOk []
   | l :: r =>
-      if all_pyspace (l_text l) then wrap_lines W cont is_first r
+      if all_pyspace l then wrap_lines W cont is_first r
       else
-        match wrap_line W (if is_first then "" else blanks cont) (blanks cont) l with
+        match wrap_line W cont (if is_first then "" else blanks cont) (blanks cont) l with
         | WOk a =>
             match wrap_lines W cont is_first r with
             | WOk b => WOk (List.app (filter keep_part a) b)
@@ -296,10 +291,8 @@ Definition message_lines (W : nat) (lines : list string) : list string :=
   end.
 
 (* ---- wire ----
-   "<W> <first:0|1> <cont> <L>/<L>/..."  ->  hex lines joined by ','   ("-" = no line)
-   L = "<hex line>:<chunks of the line>:<chunks of the data part>:<chunks of the comment part>",
-   chunks = hex,hex,... or "-"; "x" in place of <hex line> stands for the empty line.
-   A chunk list that does not concatenate to the munged text is refused ("chunks:err"). *)
+   "<W> <first:0|1> <cont> <hex line>/<hex line>/..."  ->  hex lines joined by ','   ("-" = no line);
+   "x" stands for the empty line *)
 (* linear-time splitting (Wire.split_on is quadratic in the length of a field; requests here are long) *)
 Fixpoint rev_onto (s acc : string) : string :=
   match s with
@@ -317,22 +310,7 @@ Definition fsplit (c : ascii) (s : string) : list string := fsplit_aux c s "".
 Definition fwords (s : string) : list string :=
   filter (fun w => negb (String.eqb w "")) (fsplit " "%char s).
 
-Definition parse_chunks (s : string) : list string :=
-  if String.eqb s "-" then [] else map hex_decode (fsplit ","%char s).
-Definition parse_src_line (s : string) : option src_line :=
-  match fsplit ":"%char s with
-  | [t; a; b; c] =>
-      let line := if String.eqb t "x" then "" else hex_decode t in
-      let l := SrcLine line (parse_chunks a) (parse_chunks b) (parse_chunks c) in
-      let ok_line := String.eqb (String.concat "" (l_chunks l)) (munge line) in
-      let ok_parts :=
-        if has_char dollar line
-        then andb (String.eqb (String.concat "" (l_data_chunks l)) (munge (before_dollar line)))
-                  (String.eqb (String.concat "" (l_comment_chunks l)) (munge (from_dollar line)))
-        else true in
-      if andb ok_line ok_parts then Some l else None
-  | _ => None
-  end.
+Definition parse_line (s : string) : string := if String.eqb s "x" then "" else hex_decode s.
 Definition show_wres (r : wres) : string :=
   match r with
   | WOk out => show_list hex_encode out
@@ -344,10 +322,8 @@ Definition run_Wrap (req : string) : string :=
   | [w; f; c; ls] =>
       match parse_nat w, parse_nat c with
       | Some W, Some cont =>
-          match (if String.eqb ls "-" then Some [] else map_opt parse_src_line (fsplit "/"%char ls)) with
-          | Some lines => show_wres (wrap_lines W cont (String.eqb f "1") lines)
-          | None => "chunks:err"
-          end
+          show_wres (wrap_lines W cont (String.eqb f "1")
+                                (if String.eqb ls "-" then [] else map parse_line (fsplit "/"%char ls)))
       | _, _ => "parse:err"
       end
   | ["title"; w; t] =>
